@@ -188,6 +188,24 @@ def handle (op : String) (a : Json) : Except String Json := do
   | "readback" =>
     let d ← optDict a "results"
     return ok (ofJVal (.obj (readBack RallyGen.StatsKeys.table d)))
+  | "lookup" =>
+    -- GlobalStats({"op_metrics": ops}).tasks() / .metrics(task)
+    let ops ← match ← toJVal ((a.getObjVal? "ops").toOption.getD Json.null) with
+      | .arr xs => match recsOfJ xs with
+        | some rs => pure rs
+        | none => throw "out-of-domain: op_metrics entries must be dicts"
+      | _ => throw "out-of-domain: op_metrics must be a list"
+    let t ← getStr a "task"
+    let wrap {α} (r : Except Err α) (f : α → Json) : Json := match r with
+      | .ok x => Json.mkObj [("r", f x)]
+      | .error e => Json.mkObj [("err", Json.str (errName e))]
+    let mres := metricsE ops t
+    let tag := match mres with
+      | .ok (some r) => if (dictGet r sTask).isSome then "hit:task" else "hit:operation-fallback"
+      | .ok none => "miss"
+      | .error _ => "keyerror"
+    return ok (Json.mkObj [("tasks", wrap (tasksE ops) (fun ks => arr (ks.map ofJVal))),
+      ("metrics", wrap mres (fun o => match o with | some r => ofJVal (.obj r) | none => Json.null))]) [tag]
   | _ => throw s!"unknown op {op}"
 
 end Drivers.Stats
